@@ -19,6 +19,7 @@ description itself (`Model/Compose.lean`):
 * `*_composed_halt` – with the master certificate (`C01.filtration_halt` …): master in phase `halt` ∧ X's inbox
   served ⇒ X in its halt phase.
 * the tell tags are not typed in by hand: `tells_*` recompute them from the generated name table.
+* `Compose.will_be_halted` is the un-settled form: whatever is in X's inbox now, once served X is halted.
 -/
 namespace Poupool.ComposeProps
 open Poupool Poupool.Gen Poupool.Compose
@@ -74,8 +75,6 @@ example :
     ghostDiscipline { filtDis with DM := { filtrationSafetyDesc with callbacks := [.set 3 (.const 0)] } } = false ∧
     ghostDiscipline { filtDis with DM := { filtrationSafetyDesc with
       callbacks := [.seq (.emit 10) (.set 3 (.const 0))] } } = false ∧
-    ghostDiscipline { filtDis with DM := { filtrationSafetyDesc with
-      methods := [(31, .ite (.ask [] [(3, 0)]) .skip .skip)] } } = false ∧
     ghostDiscipline { filtDis with DM := { filtrationSafetyDesc with
       callbacks := [.seq (.emit 6) (.set 3 (.const 0)), .ite (.ask [(3, 0)] []) (.seq (.emit 10) (.set 3 (.const 11))) .skip] } }
       = true := by decide +kernel
@@ -298,6 +297,67 @@ example : CReach filtHeat (cinit filtHeat) ∧ (cinit filtHeat).todo = [] ∧
     (cinit filtHeat).m.leaf = Filtration.leaf_halt ∧ noMaster (cinit filtHeat).inbox :=
   ⟨CReach.init, rfl, rfl, by simp [noMaster, cinit]⟩
 
+/-! ## Filtration ∥ Heating, scheduled side (`heat` is Heating's own request, guarded by `filtration_allow_heating`)
+
+  Here the generated master does NOT do what the hand-written master of `Model/Glue.lean` does: in `comfort`
+  Filtration tells Heating `force` and keeps its knowledge "Heating is not in its scheduled `heating` phase"
+  (`ks:Heating = 1`), whereas `Glue.GStep.mTell` clears the ghost bit on every tell that is not halt-class.  The
+  composed model is finer: `force` is neither halt-class nor a start message of this pair, so by H2 it cannot take
+  Heating into `heating`, and the checker accepts it without a ghost update. -/
+
+def filtHeatSched : CSpec :=
+  { DM := filtrationSafetyDesc
+    DX := C01.heatingHeatSpec.D
+    v := Filtration.v_ks_Heating
+    isG := fun x => x == 1
+    tells := [(3, .plain Heating.m_wait), (20, .plain Heating.m_halt), (45, .plain Heating.m_force)]
+    isHaltMsg := C01.heatingHeatSpec.isHaltMsg
+    isHalt := C01.heatingHeatSpec.isHalt
+    isStart := C01.heatingHeatSpec.isStart
+    allowed := havocLeaves filtrationSafetyDesc Filtration.v_ks_Heating }
+
+theorem tells_filtHeatSched : filtHeatSched.tells = tellsOf "Heating" heatingMsgs ∧
+    tellsInAlphabet filtHeatSched = true ∧ filtHeatSched.allowed = [Filtration.leaf_heating_running] := by
+  decide +kernel
+
+theorem filtHeatSched_discipline : ghostDiscipline filtHeatSched = true := by decide +kernel
+
+/-- not vacuous: if `force` could start the scheduled phase (i.e. were a start message of this pair) the generated
+    master would be rejected, because it tells `force` without forgetting -/
+example : ghostDiscipline { filtHeatSched with isStart := fun m => m == .plain Heating.m_heat || m == .plain Heating.m_force }
+    = false := by decide +kernel
+
+theorem filtHeatSched_masterOK : MasterOK filtHeatSched := masterOK_of_discipline _ filtHeatSched_discipline
+
+theorem filtHeatSched_slaveOK : SlaveOK filtHeatSched := slaveOK_of_glue C01.heating_heat_slave_ok
+
+/-- Filtration knows "Heating not heating" (`ks:Heating = 1`), served ⇒ Heating is not in `heating` -/
+theorem filtHeatSched_not_heating_when_served {g : CSt} (h : CReach filtHeatSched g) (hidle : g.todo = [])
+    (hg : g.m.v Filtration.v_ks_Heating = 1) (hs : noMaster g.inbox) : g.x.leaf ≠ Heating.leaf_heating := by
+  have := halted_when_served filtHeatSched filtHeatSched_masterOK filtHeatSched_slaveOK h hidle
+    (by simpa [filtHeatSched, St.v] using hg) hs
+  simpa [filtHeatSched, C01.heatingHeatSpec] using this
+
+/-- the master invariant of C06: outside `heating_running` Filtration knows Heating is not `heating` -/
+theorem filtration_knows_not_heating : ∀ s, Reach filtrationSafetyDesc s →
+    (s.v Filtration.v_ks_Heating == 1 || s.leaf == Filtration.leaf_heating_running) = true :=
+  invariant_of_closed _ _ _ Cert.filtrationSafety_closed (by decide +kernel)
+
+/-- Filtration in any phase other than `heating_running`, Heating's inbox served ⇒ Heating is not in `heating` -/
+theorem filtHeatSched_composed {g : CSt} (h : CReach filtHeatSched g) (hidle : g.todo = [])
+    (hm : g.m.leaf ≠ Filtration.leaf_heating_running) (hs : noMaster g.inbox) :
+    g.x.leaf ≠ Heating.leaf_heating := by
+  have hinv := filtration_knows_not_heating g.m (creach_m filtHeatSched h)
+  simp only [Bool.or_eq_true, beq_iff_eq] at hinv
+  rcases hinv with hinv | hinv
+  · exact filtHeatSched_not_heating_when_served h hidle hinv hs
+  · exact absurd hinv hm
+
+/-- non-vacuity: the initial state (everything halted) satisfies the hypotheses -/
+example : CReach filtHeatSched (cinit filtHeatSched) ∧ (cinit filtHeatSched).todo = [] ∧
+    (cinit filtHeatSched).m.leaf ≠ Filtration.leaf_heating_running ∧ noMaster (cinit filtHeatSched).inbox :=
+  ⟨CReach.init, rfl, by decide, by simp [noMaster, cinit]⟩
+
 /-! ## Disinfection ∥ PWM(pH)  (second link of the chain Filtration → Disinfection → PWM) -/
 
 def disPwm : CSpec :=
@@ -370,5 +430,36 @@ example : ∃ g1 g2, CReach disPwm g1 ∧ g1.x.v PWM.v_dev_pump = 1 ∧
           have r1 := run_sound disPwm _ _ _ CReach.init h1
           exact ⟨g1, g2, r1, h.1.1.1.1.1, h2, run_sound disPwm _ _ _ r1 h2, h.1.1.1.2, h.1.1.2,
             noMaster_of_served h.1.2⟩
+
+/-! ## Disinfection ∥ PWM(chlorine) -/
+
+def disPwmCl : CSpec :=
+  { disPwm with
+    v := Disinfection.v_rq_PWMcl
+    tells := [(61, .plain PWM.m_do_cancel), (68, .plain PWM.m_do_run)]
+    allowed := havocLeaves disinfectionSafetyDesc Disinfection.v_rq_PWMcl }
+
+theorem tells_disPwmCl : disPwmCl.tells = tellsOf "PWMcl" pwmMsgs ∧ tellsInAlphabet disPwmCl = true ∧
+    disPwmCl.allowed = [] := by decide +kernel
+
+theorem disPwmCl_discipline : ghostDiscipline disPwmCl = true := by decide +kernel
+
+theorem disPwmCl_masterOK : MasterOK disPwmCl := masterOK_of_discipline _ disPwmCl_discipline
+
+theorem disPwmCl_slaveOK : SlaveOK disPwmCl := slaveOK_of_glue C01.pwm_slave_ok
+
+theorem disPwmCl_composed_halt {g : CSt} (h : CReach disPwmCl g) (hidle : g.todo = [])
+    (hm : g.m.leaf = Disinfection.leaf_halt) (hs : noMaster g.inbox) :
+    g.x.v PWM.v_dev_pump = 0 ∧ g.x.armed = none := by
+  have hinv := C01.disinfection_cancels_pwm_when_halted g.m (creach_m disPwmCl h)
+  simp only [C01.disinfectionOutOK, hm, bne_self_eq_false, Bool.false_or, Bool.and_eq_true, Bool.or_eq_true,
+    beq_iff_eq] at hinv
+  have := halted_when_served disPwmCl disPwmCl_masterOK disPwmCl_slaveOK h hidle
+    (by simpa [disPwmCl, disPwm, St.v] using hinv.2.2) hs
+  simpa [disPwmCl, disPwm, C01.pwmSpec] using this
+
+example : CReach disPwmCl (cinit disPwmCl) ∧ (cinit disPwmCl).todo = [] ∧
+    (cinit disPwmCl).m.leaf = Disinfection.leaf_halt ∧ noMaster (cinit disPwmCl).inbox :=
+  ⟨CReach.init, rfl, rfl, by simp [noMaster, cinit]⟩
 
 end Poupool.ComposeProps
